@@ -603,10 +603,13 @@ def run_cache_case(case, memos=None):
                 hit = 0
             flat += [st, hit]
             if st in (1, 2, 4) and fail is None:
-                what = {1: "returned a value different from a fresh computation",
-                        2: "raised %s, a fresh computation returns a value" % vc,
-                        4: "fresh computation raises %s, memoised call did not "
-                           "(or raised another exception)" % (vf,)}[st]
+                if st == 1:
+                    what = "returned a value different from a fresh computation"
+                elif st == 2:
+                    what = "raised %s, a fresh computation returns a value" % (vc,)
+                else:
+                    what = ("fresh computation raises %s, memoised call did not "
+                            "(or raised another exception)" % (vf,))
                 fail = "op %d: %s(%s%s) %s%s" % (
                     i, op["f"], json.dumps(op["pos"]),
                     (", **" + json.dumps(op["kw"])) if op["kw"] else "", what,
@@ -1331,12 +1334,12 @@ def run(run):
     t = run.thorough
     cases = load_corpus()
     run.count("corpus", len(cases))
-    n_cache_small, n_cache_big = (150, 40) if t else (22, 5)
+    n_cache_small, n_cache_big = (150, 40) if t else (18, 4)
     for _ in range(n_cache_small):
         cases.append(gen_cache_case(rng, t))
     for _ in range(n_cache_big):
         cases.append(gen_cache_case(rng, t, big=True))
-    for _ in range(60 if t else 8):
+    for _ in range(60 if t else 6):
         cases.append(gen_public_case(rng))
     for _ in range(120 if t else 14):
         cases.append(gen_hashfile_case(rng, t))
@@ -1344,6 +1347,8 @@ def run(run):
         cases.append(gen_lcl_case(rng, t))
 
     import multiprocessing
+    import time
+    t0 = time.time()
     # the caches are process-global: every case runs in a worker of its own
     # pool slot (fork), cases are independent of each other
     order = sorted(range(len(cases)), key=lambda i: -len(cases[i].get("ops", [])))
@@ -1356,7 +1361,9 @@ def run(run):
             raise RuntimeError("case %d (%s) crashed: %s" % (
                 i, cases[i].get("kind"), res["crash"]))
         done[i] = (cases[i], res)
+    t1 = time.time()
     done += run_obj_checks(run, 6 if t else 2)
+    t2 = time.time()
 
     by_kind = {}
     for c, res in done:
@@ -1383,11 +1390,14 @@ def run(run):
         if k in MODEL_FN:
             by_kind.setdefault(k, []).append((c, res))
 
+    run.extra["phase_seconds"] = dict(implementation_pool=round(t1 - t0, 1),
+                                      object_caches=round(t2 - t1, 1))
     for k, items in by_kind.items():
+        tk = time.time()
         fn, header = MODEL_FN[k]
         model = common.coq_map(run.scratch, "c17_" + k, header, fn,
                                [res["render"] for _, res in items],
-                               shard=4 if k == "cache" else (8 if k == "hashfile" else 60))
+                               shard=2 if k == "cache" else (4 if k == "hashfile" else 40))
         for (c, res), m in zip(items, model):
             run.corr_checked += 1
             if m != res["flat"]:
@@ -1395,6 +1405,7 @@ def run(run):
                          min(len(m), len(res["flat"])))
                 run.mismatch(c, dict(first_difference_at=d, model=m[max(0, d - 6):d + 6]),
                              res["flat"][max(0, d - 6):d + 6], what="correspondence:" + k)
+        run.extra["phase_seconds"]["model_" + k] = round(time.time() - tk, 1)
 
 
 # --------------------------------------------------------------------------
@@ -1438,7 +1449,7 @@ def search(run, broken):
     rng = run.rng
     n = 400 if run.thorough else 120
     gens = [lambda: gen_cache_case(rng, True), lambda: gen_cache_case(rng, True, big=True),
-            gen_public_case.__get__(rng) if False else (lambda: gen_public_case(rng)),
+            lambda: gen_public_case(rng),
             lambda: gen_hashfile_case(rng, True), lambda: gen_lcl_case(rng, True)]
     for i in range(n):
         c = gens[i % len(gens)]()
